@@ -13,6 +13,7 @@ package main
 // Tautschnig partial-order encoding, DESIGN section 4 and appendix A).
 
 import (
+	"os"
 	"fmt"
 	"go/types"
 	"sort"
@@ -38,6 +39,8 @@ type Event struct {
 	Aux    string
 	Peer   *Event // wake <-> enq, unlock <-> lock …
 	Held   []string
+	HasRef bool // reference-valued read whose value was fixed to the candidate RefID on this path
+	RefID  int
 	Plain  bool // plain (non-atomic, non-sync) memory access: subject to the race analysis
 	Cap    int  // channel capacity (send / park / selwake events)
 }
@@ -68,6 +71,7 @@ type ThreadSpec struct {
 	Args      []Value
 	Parent    int    // spawning thread (0 = setup), event index of the go statement in the parent path
 	EnvCancel string // environment thread: cancels the named context at any moment, or never
+	After     []string // SpawnAfter: first step only after these threads (and their goroutines) first blocked / finished
 	Paths     []*ThreadPath
 }
 
@@ -519,7 +523,7 @@ func (ex *Exec) sharedLoad(p *Ptr, cur Value, atomic bool) Value {
 	if len(cands) == 1 {
 		// still an event (ordering), but the value is known
 		sel := ex.ts.FreshVar(fmt.Sprintf("rd.t%d.%s", c.curThread, sanitize(loc)), SInt(32, false))
-		ex.addEvent(&Event{Kind: "r", Loc: loc, RV: sel, Atomic: atomic, Plain: !atomic, Aux: "ref"})
+		ex.addEvent(&Event{Kind: "r", Loc: loc, RV: sel, Atomic: atomic, Plain: !atomic, Aux: "ref", HasRef: true, RefID: ex.refID(cands[0])})
 		ex.sess.AssertPC(ex.ts.IntCmp("eq", sel, ex.ts.Int(SInt(32, false), uint64(ex.refID(cands[0])))))
 		v := ex.materialize(cands[0])
 		if len(c.heldLocks) > 0 && !atomic {
@@ -528,8 +532,9 @@ func (ex *Exec) sharedLoad(p *Ptr, cur Value, atomic bool) Value {
 		return v
 	}
 	sel := ex.ts.FreshVar(fmt.Sprintf("rd.t%d.%s", c.curThread, sanitize(loc)), SInt(32, false))
-	ex.addEvent(&Event{Kind: "r", Loc: loc, RV: sel, Atomic: atomic, Plain: !atomic, Aux: "ref"})
+	rdEv := ex.addEvent(&Event{Kind: "r", Loc: loc, RV: sel, Atomic: atomic, Plain: !atomic, Aux: "ref"})
 	k := ex.ctl.Choose(len(cands), func(int) bool { return true })
+	rdEv.HasRef, rdEv.RefID = true, ex.refID(cands[k])
 	ex.sess.AssertPC(ex.ts.IntCmp("eq", sel, ex.ts.Int(SInt(32, false), uint64(ex.refID(cands[k])))))
 	v := ex.materialize(cands[k])
 	if len(c.heldLocks) > 0 && !atomic {
@@ -812,7 +817,7 @@ func (ex *Exec) sharedStore(p *Ptr, v Value, atomic bool) {
 	if !found {
 		c.newCands[loc] = append(c.newCands[loc], rc)
 	}
-	ex.addEvent(&Event{Kind: "w", Loc: loc, WV: ex.ts.Int(SInt(32, false), uint64(ex.refID(rc))), Atomic: atomic, Plain: !atomic, Aux: "ref"})
+	ex.addEvent(&Event{Kind: "w", Loc: loc, WV: ex.ts.Int(SInt(32, false), uint64(ex.refID(rc))), Atomic: atomic, Plain: !atomic, Aux: "ref", HasRef: true, RefID: ex.refID(rc)})
 }
 
 // publish marks the thread-local objects reachable from v as shared and emits write events for
@@ -1318,6 +1323,37 @@ func (ex *Exec) composeAndCheck() {
 		return
 	}
 	rec(1, nil)
+	if ex.h.Opts["prune"] != "off" {
+		kept := combos[:0]
+		for _, combo := range combos {
+			if ex.staticallyInfeasible(combo) {
+				if os.Getenv("VERIF_DEBUG_PRUNE") != "" {
+					var tr []string
+					for _, p := range combo {
+						if p != nil {
+							tr = append(tr, fmt.Sprint(p.Trace)+p.End)
+						}
+					}
+					logf("    pruned combo %v\n", tr)
+					if os.Getenv("VERIF_DEBUG_PRUNE") == "2" {
+						for _, p := range combo {
+							if p != nil {
+								for _, e := range p.Events {
+									if e.HasRef {
+										logf("       t%d %s %s ref=%d @%s\n", e.Thread, e.Kind, e.Loc, e.RefID, e.Pos)
+									}
+								}
+							}
+						}
+					}
+				}
+				res.PrunedCombos++
+				continue
+			}
+			kept = append(kept, combo)
+		}
+		combos = kept
+	}
 	if verboseLog {
 		for t := 1; t <= nThreads; t++ {
 			for _, p := range c.threads[t].Paths {
@@ -1342,6 +1378,102 @@ func (ex *Exec) composeAndCheck() {
 		res.ConcCombos++
 		ex.checkCombo(combo, final, finalPC)
 	}
+}
+
+// staticallyInfeasible: cheap necessary conditions of the event-order query, decided without the
+// solver (the same facts the query would refute): a reference-valued read fixed to candidate k needs
+// the initial value or some write of k to that location in the combination; a Cond wake-up needs a
+// Broadcast/Signal on that Cond; a receive needs a successful send by another thread and vice versa;
+// a receive-from-closed needs a close.  Sound pruning only: every combination it rejects has an
+// unsatisfiable query.
+func (ex *Exec) staticallyInfeasible(combo []*ThreadPath) bool {
+	c := ex.conc
+	type lk struct {
+		loc string
+		id  int
+	}
+	wrote := map[lk]bool{}
+	has := map[string]bool{}
+	for _, p := range combo {
+		if p == nil {
+			continue
+		}
+		for _, e := range p.Events {
+			switch {
+			case e.Kind == "w" && e.HasRef:
+				wrote[lk{e.Loc, e.RefID}] = true
+			case e.Kind == "bcast" || e.Kind == "signal":
+				has["notify:"+e.Loc] = true
+			case e.Kind == "close":
+				has["close:"+e.Loc] = true
+			case e.Kind == "send" && e.Aux == "ok":
+				has[fmt.Sprintf("send:%s:%d", e.Loc, e.Thread)] = true
+				has["sendany:"+e.Loc] = true
+			case e.Kind == "selwake" && e.Aux == "recv":
+				has[fmt.Sprintf("recv:%s:%d", e.Loc, e.Thread)] = true
+			}
+		}
+	}
+	for _, p := range combo {
+		if p == nil {
+			continue
+		}
+		for _, e := range p.Events {
+			switch {
+			case e.Kind == "r" && e.HasRef:
+				if wrote[lk{e.Loc, e.RefID}] {
+					continue
+				}
+				if init, ok := c.initVals[e.Loc]; ok {
+					if id, ok2 := c.refIDs[ex.refKey(init)]; ok2 && id == e.RefID {
+						continue
+					}
+				}
+				if os.Getenv("VERIF_DEBUG_PRUNE") != "" {
+					iv, iok := c.initVals[e.Loc]
+					ik := ""
+					if iok {
+						ik = ex.refKey(iv)
+					}
+					logf("    prune: read %s ref=%d @%s thread %d has no provider (init known=%v key=%q id=%d)\n", e.Loc, e.RefID, e.Pos, e.Thread, iok, ik, c.refIDs[ik])
+				}
+				return true
+			case e.Kind == "enq" && e.Peer != nil:
+				if !has["notify:"+e.Loc] {
+					ex.pruneLog(e, "no notify")
+					return true
+				}
+			case e.Kind == "selwake" && e.Aux == "closed":
+				if !has["close:"+e.Loc] {
+					ex.pruneLog(e, "no close")
+					return true
+				}
+			case e.Kind == "selwake" && e.Aux == "recv":
+				ok := false
+				for t := range combo {
+					if t+1 != e.Thread && has[fmt.Sprintf("send:%s:%d", e.Loc, t+1)] {
+						ok = true
+					}
+				}
+				if !ok {
+					ex.pruneLog(e, "no sender")
+					return true
+				}
+			case e.Kind == "send" && e.Aux == "ok" && e.Cap == 0:
+				ok := false
+				for t := range combo {
+					if t+1 != e.Thread && has[fmt.Sprintf("recv:%s:%d", e.Loc, t+1)] {
+						ok = true
+					}
+				}
+				if !ok {
+					ex.pruneLog(e, "no receiver")
+					return true
+				}
+			}
+		}
+	}
+	return false
 }
 
 type lockSection struct {
@@ -1411,6 +1543,54 @@ func (ex *Exec) checkCombo(combo []*ThreadPath, final *ThreadPath, finalPC []*Te
 		// the final (quiescent) phase follows everything
 		if len(final.Events) > 0 && len(p.Events) > 0 {
 			assertf("%s", lt(p.Events[len(p.Events)-1], final.Events[0]))
+		}
+	}
+	// SpawnAfter: the thread's first event follows the first blocking event (parked select,
+	// Cond.Wait ticket) - or, if there is none, the last event - of every listed thread and of
+	// every goroutine started (transitively) by a listed thread
+	for t, p := range combo {
+		if p == nil || len(p.Events) == 0 || len(c.threads[t+1].After) == 0 {
+			continue
+		}
+		for _, an := range c.threads[t+1].After {
+			found := false
+			for u, q := range combo {
+				if q == nil || len(q.Events) == 0 {
+					continue
+				}
+				// is thread u+1 the named thread or a descendant of it?
+				anc := u + 1
+				isDesc := false
+				for anc != 0 {
+					if c.threads[anc].Name == an {
+						isDesc = true
+						break
+					}
+					anc = c.threads[anc].Parent
+				}
+				if !isDesc {
+					continue
+				}
+				found = true
+				target := q.Events[len(q.Events)-1]
+				for _, e := range q.Events {
+					if e.Kind == "park" || e.Kind == "enq" {
+						target = e
+						break
+					}
+				}
+				assertf("%s", lt(target, p.Events[0]))
+			}
+			if !found {
+				for _, sp := range c.threads[1:] {
+					if sp.Name == an {
+						found = true // exists but has no events in this combination
+					}
+				}
+				if !found {
+					panic(unsupported("SpawnAfter: unknown thread " + an))
+				}
+			}
 		}
 	}
 	// path conditions and read-from
@@ -1799,17 +1979,38 @@ func (ex *Exec) checkCombo(combo []*ThreadPath, final *ThreadPath, finalPC []*Te
 			}
 		}
 	}
-	base := sb.String()
-
-	// obligations of this combination
+	// obligations of this combination; their definitions (and those of the classifier predicates)
+	// are emitted into the base so that they survive the push/pop around each obligation
 	var asserts []recAssert
 	for _, p := range paths {
 		if p != nil {
 			asserts = append(asserts, p.Asserts...)
 		}
 	}
+	negName := map[int]string{}
+	for i, a := range asserts {
+		if !a.Cond.IsTrue() {
+			negName[i] = emit(ex.ts.Not(a.Cond))
+		}
+	}
+	for _, p := range paths {
+		if p != nil {
+			for _, cp := range p.Classes {
+				emit(cp.T)
+			}
+		}
+	}
+	base := sb.String()
 	// feasibility of the combination (vacuity witness) and the assertions
 	solver := ex.sess.solver
+	if d := os.Getenv("VERIF_DUMP_COMBO"); d != "" {
+		os.MkdirAll(d, 0755)
+		var desc strings.Builder
+		for _, e := range events {
+			fmt.Fprintf(&desc, "; c%d t%d %s %s [%s] @%s\n", e.ID, e.Thread, e.Kind, e.Loc, e.Aux, e.Pos)
+		}
+		os.WriteFile(fmt.Sprintf("%s/%s_combo%d.smt2", d, ex.h.Name, ex.sess.res.ConcCombos), []byte(desc.String()+base+"(check-sat)\n"), 0644)
+	}
 	solver.Send("(reset)\n" + base)
 	t0 := time.Now()
 	ans := solver.CheckSat(ex.sess.oblTO)
@@ -1833,7 +2034,7 @@ func (ex *Exec) checkCombo(combo []*ThreadPath, final *ThreadPath, finalPC []*Te
 			}
 		}
 	}
-	for _, a := range asserts {
+	for ai, a := range asserts {
 		st := ex.sess.stat(a.ID, a.Kind)
 		st.Reached++
 		st.Posed++
@@ -1846,8 +2047,7 @@ func (ex *Exec) checkCombo(combo []*ThreadPath, final *ThreadPath, finalPC []*Te
 		}
 		st.Nontrivial++
 		var defs strings.Builder
-		n := r.Ref(ex.ts.Not(a.Cond))
-		defs.WriteString(r.Take())
+		n := negName[ai]
 		blockers := ""
 		violated := false
 		for iter := 0; iter < 8; iter++ {
@@ -2006,6 +2206,16 @@ func (ex *Exec) concCandidate(solver *Solver, r *Renderer, a recAssert, events [
 	}
 	// schedule classes decided by the combination of control paths (known findings are keyed by them)
 	bcastBeforeEnq, sendFailed, anySend, parkedForever, waitForever := false, false, false, false, false
+	wokenThenLost := false // a thread that was woken at least once (Cond wake-up / select wake-up) and later blocks forever
+	for _, e := range events {
+		if (e.Kind == "enq" || e.Kind == "park") && e.Peer == nil {
+			for _, f := range events {
+				if f.Thread == e.Thread && f.Idx < e.Idx && (f.Kind == "enq" || f.Kind == "park") && f.Peer != nil {
+					wokenThenLost = true
+				}
+			}
+		}
+	}
 	for _, e := range events {
 		switch {
 		case e.Kind == "enq" && e.Peer == nil:
@@ -2029,6 +2239,7 @@ func (ex *Exec) concCandidate(solver *Solver, r *Renderer, a recAssert, events [
 	cand.Classes["sched:handoff_send_failed"] = sendFailed
 	cand.Classes["sched:no_handoff_attempted"] = parkedForever && !anySend
 	cand.Classes["sched:select_parked_forever"] = parkedForever
+	cand.Classes["sched:woken_then_blocked_forever"] = wokenThenLost
 	for i, p := range paths {
 		if p != nil && i < len(c.threads)-1 {
 			cand.Choices["path:"+c.threads[i+1].Name] = 0
@@ -2317,4 +2528,10 @@ func (ex *Exec) raceCombo(combo []*ThreadPath, final *ThreadPath, a, b *Event, s
 	}
 	cand.Known = matchKnown(ex.sess.known, cand)
 	res.Candidates = append(res.Candidates, cand)
+}
+
+func (ex *Exec) pruneLog(e *Event, why string) {
+	if os.Getenv("VERIF_DEBUG_PRUNE") != "" {
+		logf("    prune: %s %s [%s] @%s thread %d: %s\n", e.Kind, e.Loc, e.Aux, e.Pos, e.Thread, why)
+	}
 }
